@@ -34,6 +34,29 @@ type l1Up struct {
 	Track int   `json:"track"`
 	Seq   int64 `json:"seq,omitempty"`  // mfhd.sequence_number of the upload
 	TNr   int64 `json:"tnr,omitempty"`  // baseMediaDecodeTime / segment duration; 0 = Seq (number and time agree: not shifted)
+	// NS > 0: the segment is built here instead of patched from the bundled one: Frags fragments, each of
+	// NS samples of SD ticks (second fragment: SD2 if set), baseMediaDecodeTime T; Lay says where the sample
+	// durations are written: "trun" (per sample), "tfhd" (tfhd.default_sample_duration, none in trun),
+	// "trex" (neither: the init segment's trex default applies; the scenario's TrexDur must equal SD)
+	NS    int    `json:"ns,omitempty"`
+	SD    int64  `json:"sd,omitempty"`
+	SD2   int64  `json:"sd2,omitempty"`
+	Frags int    `json:"frags,omitempty"`
+	T     int64  `json:"t,omitempty"`
+	Lay   string `json:"lay,omitempty"`
+}
+
+// duration of a built segment in the track's timescale
+func (u l1Up) builtDur() int64 {
+	d := int64(u.NS) * u.SD
+	if u.Frags > 1 {
+		sd2 := u.SD2
+		if sd2 == 0 {
+			sd2 = u.SD
+		}
+		d += int64(u.Frags-1) * int64(u.NS) * sd2
+	}
+	return d
 }
 
 // number that time/duration gives for this upload
@@ -51,6 +74,7 @@ type l1Scenario struct {
 	Ups    []l1Up     `json:"ups"`
 	Gen    string     `json:"generator"`
 	Shifted bool      `json:"shifted,omitempty"` // incoming numbers differ from time/duration: the channel starts shifted
+	TrexDur int64     `json:"trexdur,omitempty"` // > 0: trex.default_sample_duration of every track's init segment is set to this
 	// filled in for a failure:
 	FailOp  int             `json:"fail_op,omitempty"`
 	Precond map[string]bool `json:"precond,omitempty"`
@@ -135,6 +159,91 @@ func l1Segment(tp *l1Template, seq, timeNr int64) ([]byte, error) {
 	return buf.Bytes(), nil
 }
 
+// init segment of a track, with trex.default_sample_duration patched if the scenario asks for it
+func l1Init(sc l1Scenario, t c17track) ([]byte, error) {
+	data := initBytes[t.Asset+"/"+t.Init]
+	if sc.TrexDur == 0 {
+		return data, nil
+	}
+	f, err := mp4.DecodeFile(bytes.NewReader(data))
+	if err != nil {
+		return nil, err
+	}
+	f.Init.Moov.Mvex.Trex.DefaultSampleDuration = uint32(sc.TrexDur)
+	var buf bytes.Buffer
+	if err := f.Init.Encode(&buf); err != nil {
+		return nil, err
+	}
+	return buf.Bytes(), nil
+}
+
+// build a media segment from scratch (see l1Up)
+func l1Build(t c17track, u l1Up) ([]byte, error) {
+	fi, err := mp4.DecodeFile(bytes.NewReader(initBytes[t.Asset+"/"+t.Init]))
+	if err != nil {
+		return nil, err
+	}
+	trackID := fi.Init.Moov.Trak.Tkhd.TrackID
+	seg := mp4.NewMediaSegment()
+	if u.Lay != "trun" {
+		seg.EncOptimize = mp4.OptimizeTrun
+	}
+	frags := u.Frags
+	if frags == 0 {
+		frags = 1
+	}
+	tm := uint64(u.T)
+	for k := 0; k < frags; k++ {
+		sd := u.SD
+		if k > 0 && u.SD2 != 0 {
+			sd = u.SD2
+		}
+		frag, err := mp4.CreateFragment(uint32(u.Seq), trackID)
+		if err != nil {
+			return nil, err
+		}
+		for i := 0; i < u.NS; i++ {
+			frag.AddFullSample(mp4.FullSample{
+				Sample:     mp4.Sample{Flags: mp4.SyncSampleFlags, Dur: uint32(sd), Size: 4},
+				DecodeTime: tm,
+				Data:       []byte{0, 0, byte(k), byte(i)},
+			})
+			tm += uint64(sd)
+		}
+		seg.AddFragment(frag)
+	}
+	var buf bytes.Buffer
+	if err := seg.Encode(&buf); err != nil {
+		return nil, err
+	}
+	f, err := mp4.DecodeFile(bytes.NewReader(buf.Bytes()))
+	if err != nil {
+		return nil, err
+	}
+	for _, fr := range f.Segments[0].Fragments {
+		traf := fr.Moof.Traf
+		switch u.Lay {
+		case "tfhd":
+			if traf.Trun.HasSampleDuration() || traf.Tfhd.DefaultSampleDuration == 0 {
+				return nil, fmt.Errorf("l1Build: expected the sample duration in tfhd")
+			}
+		case "trex":
+			traf.Tfhd.DefaultSampleDuration = 0
+			traf.Tfhd.Flags &^= 0x000008
+			if traf.Trun.HasSampleDuration() {
+				return nil, fmt.Errorf("l1Build: expected no sample durations in trun")
+			}
+		}
+	}
+	if u.Lay == "trex" {
+		buf.Reset()
+		if err := f.Segments[0].Encode(&buf); err != nil {
+			return nil, err
+		}
+	}
+	return buf.Bytes(), nil
+}
+
 // the item the channel goroutine receives for that upload (what the model is driven by)
 func l1Item(tp *l1Template, seq int64) (dts, dur int64) {
 	t := seq * tp.durIn
@@ -209,8 +318,19 @@ func l1RunScenario(sc l1Scenario, emit func(l1Obs)) {
 		var body []byte
 		var url string
 		if u.Init {
-			body = initBytes[t.Asset+"/"+t.Init]
+			var err error
+			body, err = l1Init(sc, t)
+			if err != nil {
+				panic(err)
+			}
 			url = fmt.Sprintf("/upload/%s/%s/init%s", l1Chan, t.Name, t.Ext)
+		} else if u.NS > 0 {
+			var err error
+			body, err = l1Build(t, u)
+			if err != nil {
+				panic(err)
+			}
+			url = fmt.Sprintf("/upload/%s/%s/%d%s", l1Chan, t.Name, u.Seq, t.Ext)
 		} else {
 			tp, err := l1Load(t)
 			if err != nil {
@@ -497,6 +617,59 @@ func l1Generate(c *lib.Ctx, rng *rand.Rand) []l1Scenario {
 		}
 		scs = append(scs, sc)
 	}
+	// segments built here in the three places a sample duration can be written (trun, tfhd default, trex default),
+	// with sample count / sample duration changing from segment to segment and between the fragments of a segment
+	for k := 0; k < 6*mult; k++ {
+		keys := [][]string{{"v500"}, {"v500", "a128"}}[k%2]
+		sc := l1Scenario{Kind: 4, Tracks: tracksOf(keys...), Tsbd: []uint32{60, 30, 16}[k%3], Gen: "built-layouts"}
+		const D = 36000 // ticks per segment of the first segments (time = number * D: not shifted)
+		if k%3 == 2 {
+			sc.TrexDur = 720
+		}
+		for i := range keys {
+			sc.Ups = append(sc.Ups, l1Up{Init: true, Track: i})
+		}
+		first := int64(100 + rng.Intn(900))
+		tm := make([]int64, len(keys))
+		for t := range tm {
+			tm[t] = first * D
+		}
+		M := 7 + rng.Intn(5)
+		for m := 0; m < M; m++ {
+			for t := range keys {
+				u := l1Up{Track: t, Seq: first + int64(m), T: tm[t], Frags: 1}
+				lays := []string{"tfhd", "tfhd", "trun"}
+				if sc.TrexDur > 0 {
+					lays = []string{"trex", "tfhd", "trex", "trun"}
+				}
+				u.Lay = lays[rng.Intn(len(lays))]
+				// sample layouts with the same total D, and (later in the run) other totals
+				opts := [][2]int64{{50, 720}, {60, 600}, {25, 1440}, {30, 1200}}
+				if m >= 3 && rng.Intn(4) == 0 {
+					opts = [][2]int64{{50, 600}, {40, 720}, {10, 1440}}
+				}
+				o := opts[rng.Intn(len(opts))]
+				if m < 3 {
+					o = opts[(k/2)%2] // the first segments alike, so that the channel starts
+				}
+				if u.Lay == "trex" {
+					o = [2]int64{D / sc.TrexDur, sc.TrexDur}
+				}
+				u.NS, u.SD = int(o[0]), o[1]
+				if m >= 3 && u.Lay == "tfhd" && rng.Intn(3) == 0 { // two fragments with different defaults
+					u.Frags = 2
+					u.NS /= 2
+					u.SD2 = u.SD * 2
+					if rng.Intn(2) == 0 {
+						u.SD2 = u.SD
+					}
+				}
+				tm[t] += u.builtDur()
+				sc.Ups = append(sc.Ups, u)
+			}
+		}
+		scs = append(scs, sc)
+	}
 	// random skewed runs with gaps, duplicates, a jump
 	for i := 0; i < 40*mult; i++ {
 		T := 2 + rng.Intn(2)
@@ -554,11 +727,7 @@ func l1CoqCase(id int, sc l1Scenario, obs []l1Obs) string {
 		if u.Init {
 			ops = append(ops, fmt.Sprintf("OCInit %d", u.Track))
 		} else {
-			tp, err := l1Load(sc.Tracks[u.Track])
-			if err != nil {
-				panic(err)
-			}
-			dts, dur := l1ItemOut(tp, u.timeNr())
+			dts, dur := l1Truth(sc, u)
 			if sc.Shifted {
 				// the model derives number, time and the shifted flag as the upload callback does
 				ops = append(ops, fmt.Sprintf("OCUpIn %d %d %d %d", u.Track, u.Seq, dts, dur))
@@ -605,6 +774,18 @@ func l1CoqCase(id int, sc l1Scenario, obs []l1Obs) string {
 	return fmt.Sprintf("{| c_id := %d; c_kind := 4; c_w := %d; c_ntracks := %d; c_tracks := [%s]; c_asets := [%s];\n  c_ops := [%s];\n  c_obs := [%s] |}",
 		id, sc.Tsbd, len(sc.Tracks), strings.Join(trs, "; "), strings.Join(asets, "; "),
 		strings.Join(ops, "; "), strings.Join(os_, ";\n   "))
+}
+
+// start time and duration of an uploaded segment in the outgoing timescale, from how it was made
+func l1Truth(sc l1Scenario, u l1Up) (dts, dur int64) {
+	if u.NS > 0 {
+		return u.T, u.builtDur()
+	}
+	tp, err := l1Load(sc.Tracks[u.Track])
+	if err != nil {
+		panic(err)
+	}
+	return l1ItemOut(tp, u.timeNr())
 }
 
 // dts and duration as the channel goroutine sees them (text tracks are rescaled to 1000)
@@ -654,6 +835,7 @@ func l1Oracle(c *lib.Ctx, id string, sc l1Scenario, obs []l1Obs) {
 	gap := map[int]bool{}
 	beforeStart := map[[2]int64]bool{} // (track, number) uploaded while maxNrBufSegs was still 0: that upload deleted nothing
 	startedBefore := map[int]bool{}
+	truth := map[string]map[int64][2]int64{} // track name -> stored number -> (start time, duration) of the uploaded segment
 	staleReported := false
 	registered := 0
 	for i, o := range obs {
@@ -730,6 +912,14 @@ func l1Oracle(c *lib.Ctx, id string, sc l1Scenario, obs []l1Obs) {
 			if nr < 0 {
 				fail(i, "stored-content", "accepted upload without a stored media file")
 				return
+			}
+			if truth[sc.Tracks[u.Track].Name] == nil {
+				truth[sc.Tracks[u.Track].Name] = map[int64][2]int64{}
+			}
+			if td, dd := l1Truth(sc, u); true {
+				if _, dup := truth[sc.Tracks[u.Track].Name][nr]; !dup || !sc.Shifted {
+					truth[sc.Tracks[u.Track].Name][nr] = [2]int64{td, dd}
+				}
 			}
 			if m, ok := maxSeq[u.Track]; ok && nr > m+1 && !(sc.Shifted && obs[i-1].MaxBuf > 0 && !startedBefore[u.Track]) {
 				gap[u.Track] = true
@@ -808,6 +998,18 @@ func l1Oracle(c *lib.Ctx, id string, sc l1Scenario, obs []l1Obs) {
 					if !found || !hasFile {
 						fail(i, "mpd:lists-missing-segment", fmt.Sprintf("MPD lists %d..%d but track %s has no stored segment %d (buffer %v, file %v)", p.First, p.Last, t.Name, nr, found, hasFile))
 						return
+					}
+				}
+			}
+			// the listed start times and durations are those of the uploaded segments (known from how they were made)
+			if !sc.Shifted {
+				for ai, reps := range p.Reps {
+					for k, e := range expandTL(p.TL[ai]) {
+						nr := p.First + int64(k)
+						if tr, ok := truth[reps[0]][nr]; ok && (tr[0] != e[0] || tr[1] != e[1]) {
+							fail(i, "mpd:differs-from-uploaded-segment", fmt.Sprintf("segment %d of %s: MPD (t=%d,d=%d), uploaded segment (time=%d,duration=%d)", nr, reps[0], e[0], e[1], tr[0], tr[1]))
+							return
+						}
 					}
 				}
 			}
